@@ -742,6 +742,14 @@ def r13_compare_ties_are_equal(cx):
                     rets.append(str(op_const(rv["op"]).get("val", op_const(rv["op"]).get("cdef"))))
                 else:
                     rets.append("computed")
+    # the same comparison written as a search: `keys.map(cmp).find(|c| c.is_ne()).unwrap_or(X)` -- when every key compares
+    # Equal the search finds nothing and the answer is X
+    for i, t in b.calls(r"Option::<std::cmp::Ordering>::unwrap_or$"):
+        if i in r and t["dest"]["l"] in b.whole_copies({0}) | {0} or (i in r and 0 in b.whole_copies({t["dest"]["l"]})):
+            vs = [x[1].split("::")[-1] for x in b.origins(t["args"][1], through_calls=False) if x[0] == "variant"]
+            src = b.origins(t["args"][0])
+            searches = any(x[0] == "call" and call_is(b.term(x[1]), r"Iterator>::find::<|Iterator>::find_map::<") for x in src)
+            rets += vs if (vs and searches) else ["computed"]
     if not rets:
         raise AnchorLost("FullEntryTrait::compare: no return value found on the all-keys-equal paths")
     good = all(x in ("Equal", "0") or x == "computed" for x in rets) and any(x in ("Equal", "0") for x in rets)
